@@ -1,0 +1,27 @@
+//go:build verif
+
+package httpheader
+
+// Contracts for govc (see /verif/DESIGN.md). Comments only; compiled only with -tags verif.
+
+//@ spec
+//@ pred tchar(b int) := (b >= 48 && b <= 57) || (b >= 65 && b <= 90) || (b >= 97 && b <= 122) || b == 33 || b == 35 || b == 36 || b == 37 || b == 38 || b == 39 || b == 42 || b == 43 || b == 45 || b == 46 || b == 94 || b == 95 || b == 96 || b == 124 || b == 126
+//@ pred valueByteOK(b int) := b != 13 && b != 10 && b != 127 && (b >= 32 || b == 9)
+//@ pred validNameSpec(name string) := len(name) > 0 && forall i int :: 0 <= i && i < len(name) ==> tchar(name[i])
+//@ pred validValueSpec(v string) := forall i int :: 0 <= i && i < len(v) ==> valueByteOK(v[i])
+//@ pred headerOK(k string, v string) := trim(k) != "" && trim(k) == k && validNameSpec(k) && validValueSpec(v)
+
+//@ func isTokenByte
+//@   ensures [C15:rfc7230_tchar] result <==> tchar(b)
+
+//@ func validHeaderFieldName
+//@   loop 1 invariant [prefix_ok] 0 <= i && i <= len(name) && forall j int :: 0 <= j && j < i ==> tchar(name[j])
+//@   ensures [C15:iff_token] result <==> validNameSpec(name)
+
+//@ func validHeaderFieldValue
+//@   loop 1 invariant [prefix_ok] 0 <= i && i <= len(value) && forall j int :: 0 <= j && j < i ==> valueByteOK(value[j])
+//@   ensures [C15:iff_no_control_bytes] result <==> validValueSpec(value)
+
+//@ func ValidateMap
+//@   loop 1 invariant [visited_ok] forall k string :: k in visited ==> headerOK(k, headers[k])
+//@   ensures [C15:nil_iff_every_header_valid] result == nil <==> forall k string :: k in headers ==> headerOK(k, headers[k])
